@@ -683,6 +683,68 @@ def _literal_work(items):
     return stats, fails, hashes
 
 
+# ---------------------------------------------------------------------------
+# runs of adjacent string literals
+# ---------------------------------------------------------------------------
+PIECE_BODIES = ["ab", "t\\x9", "\\x1", "bell\\7", "\\12", "2", "7x", "A", ""]
+# plain / ends in a hex escape (x2) / ends in a 1-2 digit octal escape (x2) /
+# starts with a decimal digit (x2) / starts with a hex letter / empty
+PIECE_PREFIXES = ["", "L", "u", "U", "u8"]
+ADJACENT_CONTEXTS = ["char *s = {};", "void f(void) {{ g({}, 1); }}", "char *t[] = {{ {}, {} }};"]
+
+
+def adjacent_programs():
+    """Every run of 2 and 3 pieces with one common prefix, every 2-piece run
+    with mixed prefixes, in the first context; the 2-piece single-prefix runs
+    in the other contexts too.  Smallest first.  (Whether the parser accepts a
+    run - e.g. mixed prefixes - is not this check's business: rejected ones are
+    counted and skipped.)"""
+    out = []
+    for pre in PIECE_PREFIXES:
+        lits = [pre + '"' + b + '"' for b in PIECE_BODIES]
+        for n in (2, 3):
+            for run in itertools.product(lits, repeat=n):
+                out.append(ADJACENT_CONTEXTS[0].format(" ".join(run)))
+        for run in itertools.product(lits, repeat=2):
+            r = " ".join(run)
+            out.append(ADJACENT_CONTEXTS[1].format(r))
+            out.append(ADJACENT_CONTEXTS[2].format(r, r))
+    for p1 in PIECE_PREFIXES:
+        for p2 in PIECE_PREFIXES:
+            if p1 == p2:
+                continue
+            for b1 in PIECE_BODIES:
+                for b2 in PIECE_BODIES:
+                    out.append(ADJACENT_CONTEXTS[0].format(f'{p1}"{b1}" {p2}"{b2}"'))
+    seen = set()
+    out = [t for t in out if not (t in seen or seen.add(t))]
+    out.sort(key=lambda t: (len(t), t))
+    return out
+
+
+def _adjacent_work(items):
+    stats = new_stats()
+    stats["adjacent_accepted"] = 0
+    stats["adjacent_seam_changes_escape"] = 0
+    fails = []
+    hashes = set()
+    import re
+
+    seam = re.compile(r'\\(?:x[0-9a-fA-F]+|[0-7]{1,2})" (?:L|u8|u|U)?"[0-9a-fA-F]')
+    for text in items:
+        o = core.parse_outcome(text, "adjacent.c")
+        if o[0] != "ok":
+            stats["skipped"] += 1
+            continue
+        stats["adjacent_accepted"] += 1
+        if seam.search(text):
+            stats["adjacent_seam_changes_escape"] += 1
+        account(o[1], stats, hashes)
+        for sig, det in tree_problems(o[1], stats):
+            fails.append((sig, {"text": text, "origin": "adjacent-literals"}, det))
+    return stats, fails, hashes
+
+
 def build_config(spec, config, attr_mode, coord_mode):
     from pycparser import c_ast
     from pycparser.c_parser import Coord
@@ -806,6 +868,8 @@ def run(tier):
     confs = [(s.name, list(c), am, cm) for s in sp for c in astspec.configurations(s)
              for am in ATTR_MODES for cm in COORD_MODES]
     st_c = sweep("configurations", _config_work, core.chunked(confs, 200))
+    adj = adjacent_programs()
+    st_a = sweep("adjacent_literals", _adjacent_work, core.chunked(adj, 150))
     small = [p for p in pool if len(p[1]) < 20000]
     big = [[p] for p in pool if len(p[1]) >= 20000]
     st_p = sweep("pool", _pool_work, big + core.chunked(small, 60))
@@ -848,6 +912,7 @@ def run(tier):
     if (st_p["trees"] < 60 or st_l["trees"] < len(lits) or st_l.get("lexable", 0) < 100
             or st_c["trees"] < len(confs) or any(feats.get(f, 0) == 0 for f in need)
             or set(total["classes"]) != cfg_names or total["rebuilds"] < 6 * total["trees"] * 0.9
+            or st_a.get("adjacent_accepted", 0) < 500 or st_a.get("adjacent_seam_changes_escape", 0) < 50
             or st_w.get("weakref_family_subjects", 0) < n_wconf + 100 or st_w.get("weakref_family_refs", 0) < 1000
             or st_h.get("history_cases", 0) < 3 * n_hconf
             or any(st_h.get("history_aborted", {}).get(f"{op}/{m}", 0) == 0 for op in HISTORY_OPS for m in ("recursion-limit", "interrupt"))):
@@ -871,6 +936,9 @@ def run(tier):
     R.set("weakrefs_taken", total["weakrefs"])
     R.set("special_shapes", feats)
     R.set("node_classes_reached", total["classes"])
+    R.set("adjacent_literal_programs", len(adj))
+    R.set("adjacent_literal_programs_accepted", st_a.get("adjacent_accepted", 0))
+    R.set("adjacent_literal_programs_where_gluing_changes_an_escape", st_a.get("adjacent_seam_changes_escape", 0))
     R.set("weakref_family_subjects", st_w.get("weakref_family_subjects", 0))
     R.set("weakref_family_checks", st_w.get("weakref_family_checks", 0))
     R.set("weakref_family_references_created", st_w.get("weakref_family_refs", 0))
@@ -886,6 +954,8 @@ def run(tier):
     R.set("bounds", {"literal_alphabet": ALPHABET, "literal_body<=": MAXBODY, "prefixes": PREFIXES,
                      "pickle_protocols": PROTOCOLS, "attr_modes": ATTR_MODES, "coord_modes": COORD_MODES,
                      "sequence_child": list(astspec.SEQ_OPTIONS), "pool": src,
+                     "adjacent_literals": {"piece_bodies": PIECE_BODIES, "prefixes": PIECE_PREFIXES, "run_lengths": [2, 3],
+                                           "contexts": ADJACENT_CONTEXTS, "mixed_prefixes": "2-piece runs"},
                      "weakref_family": {"configurations": "all", "deepest_pool_trees": WEAKREF_DEEPEST,
                                         "smallest_pool_trees": WEAKREF_SMALLEST,
                                         "references": ["list of weakref.ref", "WeakValueDictionary id->node", "WeakKeyDictionary node->parent"],
@@ -903,7 +973,8 @@ def run(tier):
                + [{"pool_program": t[:200]} for _, t in core.pick_samples(pool, 4)])
     return R.finish(
         samples,
-        "every pool AST, every string/char Constant with body <= 3 over 7 characters x 5 prefixes (hand-built and, "
+        "every pool AST, every run of 2-3 adjacent string literals over 9 piece bodies x 5 prefixes (pieces ending in hex / short "
+        "octal escapes followed by pieces starting with digits included) in 3 contexts, every string/char Constant with body <= 3 over 7 characters x 5 prefixes (hand-built and, "
         "where the lexer accepts it, parsed), every class configuration x 5 attribute modes x 3 coord modes; each "
         "rebuilt by eval(repr), pickle protocols 2..HIGHEST and deepcopy and compared structurally (with coordinates "
         "for pickle/deepcopy), by generated text, by object identity and under mutation. Weak-reference family: for every configuration and the smallest and deepest pool trees "
